@@ -342,9 +342,10 @@ def run_shard(spec, rec):
         if via == 'literal':
             pairs = [(a, b) for a, b in pairs if lit(a) is not None and lit(b) is not None and kind(a) != 'blank' and kind(b) != 'blank']
         else:
-            # a workbook stores a date as a date-time, integral floats as ints, '' as blank: keep what survives storage
+            # a workbook stores a date as a date-time, integral floats as ints, '' as blank, numbers with 16 significant digits: keep what
+            # survives storage (1000000000000000.5 is written as 1000000000000000)
             pairs = [(a, b) for a, b in pairs if all(not (isinstance(v, str) and v == '') and not (isinstance(v, dict) and '$d' in v)
-                                                     and not (isinstance(v, float) and (v == int(v) or abs(v) < 1e-300))
+                                                     and not (isinstance(v, float) and (v == int(v) or abs(v) < 1e-300 or float('%.16g' % v) != v))
                                                      and not (isinstance(v, int) and not isinstance(v, bool) and abs(v) > 2 ** 53) for v in (a, b))]
         rnd = random.Random(env.derive_seed('c10', via))
         rnd.shuffle(pairs)
